@@ -18,38 +18,56 @@ open Kopf Kopf.C02
 
 variable {E : Type} [DecidableEq E]
 
-/-- TERMINATION, for every cause including deletion. Once every invocation yields a final outcome, the
-    closed loop reaches a state with no pending event within `bound env s` turns — an explicit function
-    of the state: (1 for a finalizer adjustment) + 2·(unfinished selected handlers) + (1 if none is
-    due) + (1 if superseded records remain) + 1 + keepalive rounds of delays beyond the cap.
-    No bound on handlers, delays or history. -/
-theorem terminates (env : Env) (wf : WF env) (hfin : AllFinal env) :
+/-- TERMINATION with NO assumption on the handlers' scripts, one failure at a time. From every state, within
+    `bound env s` turns the closed loop is quiescent, OR it reaches a handling turn (`FailsNow`) whose pass
+    runs a handler with a non-final scripted outcome — i.e. it consumes one of the script's failures (the
+    handler's retry counter goes up by one, C02 `once_per_cycle`). `bound` is an explicit function of the state: (1 for a finalizer
+    adjustment) + 2·(unfinished selected handlers) + (1 if none is due) + (1 if superseded records remain)
+    + 1 + keepalive rounds of delays beyond the cap. No bound on handlers, delays or history.
+    NOT PROVED (stated in ASSUMPTIONS): that a script with finitely many failures is left behind after
+    finitely many such turns — that needs the retry counters of the selected handlers never to be reset
+    while the cycle is open. -/
+theorem terminates_or_fails (env : Env) (wf : WF env) :
     ∀ (s : State E), Uniform env s →
-      ∃ m, m ≤ bound env s ∧ (iter env m s).pending = false := by
+      ∃ m, m ≤ bound env s ∧ ((iter env m s).pending = false ∨ FailsNow env (iter env m s)) := by
   have main : ∀ (n : Nat) (s : State E), bound env s ≤ n → UniformOn env.owned s.P →
-      ∃ m, m ≤ bound env s ∧ (iter env m s).pending = false := by
+      ∃ m, m ≤ bound env s ∧ ((iter env m s).pending = false ∨ FailsNow env (iter env m s)) := by
     intro n
     induction n with
     | zero =>
       intro s hn hu
       cases hp : s.pending
-      · exact ⟨0, Nat.zero_le _, hp⟩
-      · have := step_decreases env wf hfin s hu hp
-        omega
+      · exact ⟨0, Nat.zero_le _, Or.inl hp⟩
+      · by_cases hf : handlesNow env s = true → PassFinal env s
+        · have := step_decreases env wf s hf hu hp
+          omega
+        · exact ⟨0, Nat.zero_le _, Or.inr ⟨Classical.byContradiction (fun h => hf (fun h' => absurd h' h)),
+            fun h => hf (fun _ => h)⟩⟩
     | succ n ih =>
       intro s hn hu
       cases hp : s.pending
-      · exact ⟨0, Nat.zero_le _, hp⟩
-      · have hdec := step_decreases env wf hfin s hu hp
-        obtain ⟨m, hm, hq⟩ := ih (loopStep env s) (by omega) (loopStep_uniform env wf s hu)
-        exact ⟨m + 1, by omega, hq⟩
+      · exact ⟨0, Nat.zero_le _, Or.inl hp⟩
+      · by_cases hf : handlesNow env s = true → PassFinal env s
+        · have hdec := step_decreases env wf s hf hu hp
+          obtain ⟨m, hm, hq⟩ := ih (loopStep env s) (by omega) (loopStep_uniform env wf s hu)
+          exact ⟨m + 1, by omega, hq⟩
+        · exact ⟨0, Nat.zero_le _, Or.inr ⟨Classical.byContradiction (fun h => hf (fun h' => absurd h' h)),
+            fun h => hf (fun _ => h)⟩⟩
   intro s hu
   exact main (bound env s) s (Nat.le_refl _) hu
 
-/-- FULL STATEMENT (property): the same without `idle env = false`. That is FALSE of the code
-    (`idle_fns_lost_wakeup_witness`, open finding C03-N1): a non-empty patch for which no request is sent
-    (only `patch.fns` without operations) cancels the sleep-and-touch, and the loop goes quiescent with the
-    cycle open. PROVED HERE under that guard:
+/-- TERMINATION, for every cause including deletion. Once every invocation yields a final outcome, the
+    closed loop reaches a state with no pending event within `bound env s` turns (the explicit ranking
+    function of `terminates_or_fails`). -/
+theorem terminates (env : Env) (wf : WF env) (hfin : AllFinal env) :
+    ∀ (s : State E), Uniform env s →
+      ∃ m, m ≤ bound env s ∧ (iter env m s).pending = false := by
+  intro s hu
+  obtain ⟨m, hm, h | ⟨_, h⟩⟩ := terminates_or_fails env wf s hu
+  · exact ⟨m, hm, h⟩
+  · exact absurd (show PassFinal env (iter env m s) from fun p _ => hfin p.1 p.2) h
+
+/-- (Guard `prematch`: for objects the framework is blind to the clause is FALSE of the code, `blind_witness`, C03-F2.)
     FINAL STATE of an object that is not being deleted (and that the framework is not blind to).
     Whenever the loop has consumed its pending event(s) and nothing is pending any more: the recorded
     last-handled state IS the object's essence, nothing initial is outstanding, NO progress record of
@@ -58,7 +76,7 @@ theorem terminates (env : Env) (wf : WF env) (hfin : AllFinal env) :
     only request it can cause is the constant part of the patch that changes nothing (`cp env`: 0 unless
     e.g. an `on.event` handler returns a constant). (No hypothesis on the handlers: a safety property of
     every quiescent state.) -/
-theorem final_state_partial (env : Env) (hni : idle env = false) (hpm : env.prematch = true) (m : Nat) :
+theorem final_state (env : Env) (hpm : env.prematch = true) (m : Nat) :
     ∀ (s : State E), s.pending = true → s.gone = false → s.marked = false →
       (iter env m s).pending = false →
       (iter env m s).base = some s.ess ∧
@@ -76,7 +94,7 @@ theorem final_state_partial (env : Env) (hni : idle env = false) (hpm : env.prem
     cases hp' : (loopStep env s).pending
     · -- quiescence is reached by this very turn
       rw [iter_quiescent env m _ hp']
-      obtain ⟨hb, hi, hn, hg2, hm2, ha2⟩ := quiescent_after_step env hni s hp hg hpm hmk hp'
+      obtain ⟨hb, hi, hn, hg2, hm2, ha2⟩ := quiescent_after_step env s hp hg hpm hmk hp'
       have hb' : (loopStep env s).base = some (loopStep env s).ess := by rw [hb, loopStep_ess]
       obtain ⟨h1, h2, h3, h4⟩ := settled_event_no_write env (loopStep env s) hb' hi hn hg2 hm2 ha2
       refine ⟨hb, ?_, hn, h1, h2, h3, h4⟩
@@ -97,11 +115,10 @@ theorem final_state_partial (env : Env) (hni : idle env = false) (hpm : env.prem
       rw [loopStep_ess] at h
       exact h
 
-/-- (Guard `idle env = false` as for `final_state_partial`.)
-    FINAL STATE of an object that is being deleted and held by the framework's finalizer: whenever
+/-- FINAL STATE of an object that is being deleted and held by the framework's finalizer: whenever
     nothing is pending any more, the own finalizer has been removed — the object is gone, unless
     somebody else's finalizer still holds it ("gone or released"). -/
-theorem final_state_deleted_partial (env : Env) (hni : idle env = false) (m : Nat) :
+theorem final_state_deleted (env : Env) (m : Nat) :
     ∀ (s : State E), s.pending = true → s.gone = false → s.marked = true → s.blocked = true →
       (iter env m s).pending = false →
       (iter env m s).blocked = false ∧ (iter env m s).gone = !env.foreignFins := by
@@ -110,7 +127,7 @@ theorem final_state_deleted_partial (env : Env) (hni : idle env = false) (m : Na
   | succ m ih =>
     intro s hp hg hmk hbl hq
     simp only [iter] at hq ⊢
-    rcases marked_step env hni s hp hg hmk hbl with ⟨hp', hg', hm', hb'⟩ | ⟨hb', hg'⟩
+    rcases marked_step env s hp hg hmk hbl with ⟨hp', hg', hm', hb'⟩ | ⟨hb', hg'⟩
     · exact ih (loopStep env s) hp' hg' hm' hb' hq
     · -- released by this turn; nothing can be pending on a gone object, and a surviving one is FREE
       cases hp' : (loopStep env s).pending
@@ -174,26 +191,26 @@ theorem final_state_deleted_partial (env : Env) (hni : idle env = false) (m : Na
         exact ⟨h1, by rw [h2, hg']⟩
 
 /-- CONVERGENCE = termination + final state, for an object that is not being deleted. -/
-theorem converges_partial (env : Env) (wf : WF env) (hfin : AllFinal env) (hni : idle env = false) (hpm : env.prematch = true)
+theorem converges (env : Env) (wf : WF env) (hfin : AllFinal env) (hpm : env.prematch = true)
     (s : State E) (hu : Uniform env s) (hp : s.pending = true) (hg : s.gone = false) (hmk : s.marked = false) :
     ∃ m, m ≤ bound env s ∧ (iter env m s).pending = false ∧ (iter env m s).base = some s.ess ∧
       (∀ i ∈ env.owned, (iter env m s).P i = none) ∧
       (loopStep env { iter env m s with pending := true }).writes = (iter env m s).writes + cp env ∧
       (loopStep env { iter env m s with pending := true }).pending = false := by
   obtain ⟨m, hm, hq⟩ := terminates env wf hfin s hu
-  obtain ⟨h1, _, h2, h3, h4, _⟩ := final_state_partial env hni hpm m s hp hg hmk hq
+  obtain ⟨h1, _, h2, h3, h4, _⟩ := final_state env hpm m s hp hg hmk hq
   exact ⟨m, hm, hq, h1, h2, h3, h4⟩
 
 /-- CONVERGENCE of a deletion: the delete handlers stop failing ⇒ within `bound env s` turns the own
     finalizer is released and the object is gone (or left to the foreign finalizers). This is the
     "is ever released" half that a one-cycle statement about the finalizer cannot give. -/
-theorem deletion_converges_partial (env : Env) (wf : WF env) (hfin : AllFinal env) (hni : idle env = false)
+theorem deletion_converges (env : Env) (wf : WF env) (hfin : AllFinal env)
     (s : State E) (hu : Uniform env s) (hp : s.pending = true) (hg : s.gone = false)
     (hmk : s.marked = true) (hbl : s.blocked = true) :
     ∃ m, m ≤ bound env s ∧ (iter env m s).pending = false ∧
       (iter env m s).blocked = false ∧ (iter env m s).gone = !env.foreignFins := by
   obtain ⟨m, hm, hq⟩ := terminates env wf hfin s hu
-  obtain ⟨h1, h2⟩ := final_state_deleted_partial env hni m s hp hg hmk hbl hq
+  obtain ⟨h1, h2⟩ := final_state_deleted env m s hp hg hmk hbl hq
   exact ⟨m, hm, hq, h1, h2⟩
 
 /-- The cycle is closed — the last-handled state becomes the essence — exactly by a pass after which
@@ -229,8 +246,8 @@ def CompletedIn (env : Env) (s : State E) (m k : Nat) (i : Id) : Prop :=
       `∀ i ∈ selOf env s, ∃ k ≤ m, CompletedIn env s m k i`.
     That is FALSE of the code (`absorbed_change_witness`: known finding C03-F4; `shared_id_witness`: C03-N3).
     PROVED HERE under the exact guard: the handler is not yet recorded as finished when the last change
-    arrives (and `idle env = false`, see `final_state_partial`). -/
-theorem completed_against_final_partial (env : Env) (wf : WF env) (hni : idle env = false)
+    arrives. -/
+theorem completed_against_final_partial (env : Env) (wf : WF env)
     (hpm : env.prematch = true) (m : Nat) :
     ∀ (s : State E), s.pending = true → s.gone = false → adjusting env s = false → isHandler s = true →
       (∀ k < m, (pass env (iter env k s)).closed = false) → (pass env (iter env m s)).closed = true →
@@ -247,7 +264,7 @@ theorem completed_against_final_partial (env : Env) (wf : WF env) (hni : idle en
   | succ m ih =>
     intro s hp hg ha hh hopen hc i hi hu
     have h0 : (pass env s).closed = false := hopen 0 (Nat.succ_pos _)
-    obtain ⟨now', w, h⟩ := open_next env hni s hp hg ha hpm hh h0
+    obtain ⟨now', w, h⟩ := open_next env s hp hg ha hpm hh h0
     have hcz : causeOf (loopStep env s) = causeOf s := by
       rw [h]; exact causeOf_congr s _ (by simp [nextState, h0]) rfl rfl (by simp [nextState, h0]) rfl rfl
     cases hu' : unfin (loopStep env s).P i
@@ -278,13 +295,13 @@ theorem completed_against_final_partial (env : Env) (wf : WF env) (hni : idle en
       · exact Or.inl ⟨Nat.succ_lt_succ hlt, hr⟩
       · exact Or.inr ⟨by omega, hr⟩
 
-/-- FULL STATEMENT: delayed handlers are always woken, whatever the patch of the cycle carries. FALSE of the
-    code for a patch for which no request is sent (`idle env`: C03-N1, `idle_fns_lost_wakeup_witness`).
-    PROVED HERE for the other two patch classes (C03-F7, repaired by 7224f57): a patch that changes the
-    object, and content that changes nothing on the server (`constPatch`) — a
-    pass that leaves the cycle open leaves an event pending: the echo of a PATCH that changed the object,
-    or the touch after the sleep. -/
-theorem open_pass_leaves_event_partial (env : Env) (hni : idle env = false) (s : State E) (hp : s.pending = true) (hg : s.gone = false)
+/-- Delayed handlers are always woken (C03-F7, repaired by 7224f57; C03-N1, repaired by b7bf39c): whether the
+    cycle's patch changes the object, holds content that changes nothing on the server (`constPatch`), or sends
+    no request at all — a pass that leaves the cycle open leaves an event pending: the echo of a PATCH that
+    changed the object, or the touch after the sleep. NOT in the model: a patch carried over from a rejected
+    JSON-patch (`memory.remaining_patch`, C08's transport), which makes the cycle skip the handlers — open
+    finding C03-N2, found by the oracle. -/
+theorem open_pass_leaves_event (env : Env) (s : State E) (hp : s.pending = true) (hg : s.gone = false)
     (ha : adjusting env s = false) (hpm : env.prematch = true) (hh : isHandler s = true)
     (hc : (pass env s).closed = false) :
     (loopStep env s).pending = true ∧ s.writes < (loopStep env s).writes := by
@@ -292,7 +309,7 @@ theorem open_pass_leaves_event_partial (env : Env) (hni : idle env = false) (s :
   · unfold adjusting at ha; simp [h1] at ha
   · unfold adjusting at ha; simp [h1] at ha
   · rw [hpm] at h1; cases h1
-  · obtain ⟨now', w, hx⟩ := open_next env hni s hp hg ha hpm hh hc
+  · obtain ⟨now', w, hx⟩ := open_next env s hp hg ha hpm hh hc
     -- the release turn is excluded by `open_next`'s shape: it never keeps `blocked`
     rcases turn_cases env s hp hg with ⟨h1, _⟩ | ⟨h1, _⟩ | ⟨_, h1, _⟩ | ⟨_, _, _, hbl, _, h⟩ | ⟨_, _, _, _, h⟩
     · unfold adjusting at ha; simp [h1] at ha
@@ -305,7 +322,7 @@ theorem open_pass_leaves_event_partial (env : Env) (hni : idle env = false) (s :
       rcases handleTurn_cases env s with ⟨_, h'⟩ | ⟨d, _, _, h'⟩ | ⟨_, hm, h'⟩
       · rw [h']; exact ⟨rfl, by simp [nextState]⟩
       · rw [h']; exact ⟨rfl, by simp [nextState]; omega⟩
-      · obtain ⟨_, _, hy⟩ := open_handle_pending env hni s hh hc
+      · obtain ⟨_, _, hy⟩ := open_handle_pending env s hh hc
         rw [h'] at hy
         have := congrArg State.pending hy
         simp [nextState] at this
@@ -313,20 +330,20 @@ theorem open_pass_leaves_event_partial (env : Env) (hni : idle env = false) (s :
     rcases handleTurn_cases env s with ⟨_, h'⟩ | ⟨d, _, _, h'⟩ | ⟨_, hm, h'⟩
     · rw [h']; exact ⟨rfl, by simp [nextState]⟩
     · rw [h']; exact ⟨rfl, by simp [nextState]; omega⟩
-    · obtain ⟨_, _, hy⟩ := open_handle_pending env hni s hh hc
+    · obtain ⟨_, _, hy⟩ := open_handle_pending env s hh hc
       rw [h'] at hy
       have := congrArg State.pending hy
       simp [nextState] at this
 
 /-- After the last change, a handler that reached a final outcome in one turn of the loop is not
     invoked in any later turn of the same handling cycle (C02's once-per-cycle, along the closed loop). -/
-theorem invoked_once_after_last_change (env : Env) (wf : WF env) (hni : idle env = false) (hpm : env.prematch = true)
+theorem invoked_once_after_last_change (env : Env) (wf : WF env) (hpm : env.prematch = true)
     (s : State E) (hp : s.pending = true) (hg : s.gone = false) (ha : adjusting env s = false)
     (hh : isHandler s = true) (hne : NoExtras (cfgOf env s) s.P)
     (i : Id) (n : Nat) (hinv : (i, n) ∈ (pass env s).invoked) (hfin : (env.exec i n).final = true)
     (hopen : (pass env s).closed = false) (k : Nat) :
     ∀ l ∈ invsOf env k (loopStep env s), ∀ m, (i, m) ∉ l := by
-  obtain ⟨now', w, h⟩ := open_next env hni s hp hg ha hpm hh hopen
+  obtain ⟨now', w, h⟩ := open_next env s hp hg ha hpm hh hopen
   have hcz : causeOf (nextState env s now' true w) = causeOf s :=
     causeOf_congr s _ (by simp [nextState, hopen]) rfl rfl (by simp [nextState, hopen]) rfl rfl
   have hcz' : causeOf (loopStep env s) = causeOf s := by rw [h]; exact hcz
@@ -339,7 +356,7 @@ theorem invoked_once_after_last_change (env : Env) (wf : WF env) (hni : idle env
           (!(env.prematch && env.changeReq) && s.blocked)) = false
     rw [← adjusting_eq]; exact ha
   have hP : (loopStep env s).P = (cycle (cfgOf env s) s.P s.now s.now env.exec).P' := by rw [h]; rfl
-  rw [invs_eq env hni hpm k (loopStep env s) hp' hg' ha' hh', hcz', hP]
+  rw [invs_eq env hpm k (loopStep env s) hp' hg' ha' hh', hcz', hP]
   have hsubs : ∀ st ∈ (⟨s.now, s.now, env.exec, selOf env s, env.limits, env.lifecycle⟩ : StepV) ::
       toSteps env (stepsOf env k (loopStep env s)), ∀ j ∈ st.selected, j ∈ env.owned := by
     intro st hst j hj
@@ -537,7 +554,7 @@ def retryingRec : Rec :=
 /-- handlers: `c0` (creation, no filter) and `u0` (update, label-filtered: does not match the object any more) -/
 def envW (prematch : Bool) : Env :=
   { owned := ["c0", "u0"], subs := [], sel := fun c => if c.reason = .create then ["c0"] else [],
-    initialH := fun _ => false, idleFns := false,
+    initialH := fun _ => false,
     limits := fun _ => ⟨none, none⟩, lifecycle := .asap, exec := fun _ _ => okOutcome,
     prematch := prematch, changeReq := false, foreignFins := false, constPatch := false, lat := 1, rtt := 1, cap := 38400 }
 
@@ -623,7 +640,7 @@ theorem free_witness :
 /-- two update handlers, all at once; `u2` fails temporarily on its first attempt -/
 def envA : Env :=
   { owned := ["u1", "u2"], subs := [], sel := fun c => if c.reason = .update then ["u1", "u2"] else [],
-    initialH := fun _ => false, idleFns := false,
+    initialH := fun _ => false,
     limits := fun _ => ⟨none, none⟩, lifecycle := .allAtOnce,
     exec := fun i n => if i = "u2" ∧ n = 0 then tempOutcome 64 else okOutcome,
     prematch := true, changeReq := false, foreignFins := false, constPatch := false, lat := 1, rtt := 1, cap := 38400 }
@@ -656,29 +673,26 @@ theorem absorbed_change_witness :
   · exact absurd hu (by decide)
   · exact absurd hu (by decide)
 
-/-- one update handler; every cycle's patch holds a transformation function that yields no operation -/
+/-- one update handler -/
 def envI : Env :=
   { owned := ["u0"], subs := [], sel := fun c => if c.reason = .update then ["u0"] else [],
-    initialH := fun _ => false, idleFns := true,
+    initialH := fun _ => false,
     limits := fun _ => ⟨none, none⟩, lifecycle := .asap, exec := fun _ _ => okOutcome,
     prematch := true, changeReq := false, foreignFins := false, constPatch := false, lat := 1, rtt := 1, cap := 38400 }
 
-/-- C03-N1 (open): the NEGATION of the unguarded `final_state` / `open_pass_leaves_event`. The update handler
-    `u0` failed temporarily and sleeps until tick 512; the cycle's patch is non-empty but holds only a
-    transformation function that yields no operation (an idempotent one, already satisfied): no request is
-    sent, `apply` nevertheless takes the patch for a change and skips the sleep-and-touch — the loop is
-    quiescent after ONE turn with the handler unfinished, its record in place and the last-handled state
-    stale. Every hypothesis of `terminates`/`final_state_partial` but `idle env = false` holds. -/
-theorem idle_fns_lost_wakeup_witness :
-    WF envI ∧ AllFinal envI ∧ Uniform envI (stateW (some 0) 1) ∧ envI.prematch = true ∧ idle envI = true ∧
-    isHandler (stateW (some 0) 1) = true ∧ "u0" ∈ selOf envI (stateW (some 0) 1) ∧
-    (pass envI (stateW (some 0) 1)).closed = false ∧
-    (iter envI 1 (stateW (some 0) 1)).pending = false ∧
-    (iter envI 1 (stateW (some 0) 1)).base ≠ some 1 ∧
-    unfin (iter envI 1 (stateW (some 0) 1)).P "u0" = true ∧
-    (iter envI 1 (stateW (some 0) 1)).writes = 0 := by
-  refine ⟨⟨?_, by decide, by decide, by decide⟩, fun _ _ => rfl, ⟨"update", ?_⟩, rfl, by decide, by decide,
-    by decide, by decide, by decide, by decide, by decide, by decide⟩
+/-- The former C03-N1 scenario as a regression instance (repaired by b7bf39c; also C03-F7's, 7224f57): `u0`
+    failed temporarily and sleeps until tick 512; whatever non-changing patch the cycle carries, the sleep is
+    taken, the touch at 512 brings the event at 513, `u0` runs and closes the cycle; three turns, two writes
+    (the touch and the closing PATCH), last-handled = essence, no record left. -/
+theorem sleeping_handler_woken_instance :
+    WF envI ∧ AllFinal envI ∧ Uniform envI (stateW (some 0) 1) ∧
+    isHandler (stateW (some 0) 1) = true ∧ (pass envI (stateW (some 0) 1)).closed = false ∧
+    (iter envI 1 (stateW (some 0) 1)).pending = true ∧ (iter envI 1 (stateW (some 0) 1)).now = 513 ∧
+    (iter envI 1 (stateW (some 0) 1)).writes = 1 ∧
+    (iter envI 3 (stateW (some 0) 1)).pending = false ∧ (iter envI 3 (stateW (some 0) 1)).base = some 1 ∧
+    (iter envI 3 (stateW (some 0) 1)).P "u0" = none ∧ (iter envI 3 (stateW (some 0) 1)).writes = 2 := by
+  refine ⟨⟨?_, by decide, by decide, by decide⟩, fun _ _ => rfl, ⟨"update", ?_⟩, by decide, by decide,
+    by decide, by decide, by decide, by decide, by decide, by decide, by decide⟩
   · intro c i hi
     simp only [envI] at hi ⊢
     split at hi
@@ -694,7 +708,7 @@ theorem idle_fns_lost_wakeup_witness :
 def envS : Env :=
   { owned := ["h", "u2"], subs := [],
     sel := fun c => if c.reason = .update then ["h", "u2"] else if c.reason = .delete then ["h"] else [],
-    initialH := fun _ => false, idleFns := false,
+    initialH := fun _ => false,
     limits := fun _ => ⟨none, none⟩, lifecycle := .asap, exec := fun _ _ => okOutcome,
     prematch := true, changeReq := true, foreignFins := false, constPatch := false, lat := 1, rtt := 1, cap := 38400 }
 
@@ -723,7 +737,7 @@ theorem shared_id_witness :
 /-- a mandatory deletion handler `d0` that fails once; the object is marked and holds our finalizer -/
 def envD (foreign : Bool) : Env :=
   { owned := ["d0"], subs := [], sel := fun c => if c.reason = .delete then ["d0"] else [],
-    initialH := fun _ => false, idleFns := false,
+    initialH := fun _ => false,
     limits := fun _ => ⟨none, none⟩, lifecycle := .asap,
     exec := fun _ n => if n = 0 then tempOutcome 64 else okOutcome,
     prematch := true, changeReq := true, foreignFins := foreign, constPatch := false, lat := 1, rtt := 1, cap := 38400 }
